@@ -200,6 +200,8 @@ class Driver:
 
     def write_replay(self, replay, directory=None):
         directory = directory or os.path.join(VERIF, "replays")
+        if os.path.abspath(build.repo_root()) != "/repo":
+            directory = os.path.join(VERIF, "replays", "mutants")     # runs against scratch copies (sensitivity testing)
         os.makedirs(directory, exist_ok=True)
         name = re.sub(r"[^A-Za-z0-9_.@+-]+", "_", replay["verdict"]["signature"])[:120]
         path = os.path.join(directory, f"{name}-{replay['run_seed'] % 100000}.json")
